@@ -162,9 +162,9 @@ type induction struct {
 	Phi   *ssa.Phi
 	Init  *Aff
 	Step  int64
-	Bound *Aff   // the value compared against (nil if not found)
+	Bound *Aff        // the value compared against (nil if not found)
 	Op    token.Token // comparison under which the loop continues, normalised to "phi Op bound"
-	CmpOn *Aff   // the affine form that is compared (phi or phi+step for range loops)
+	CmpOn *Aff        // the affine form that is compared (phi or phi+step for range loops)
 }
 
 func inductionOf(phi *ssa.Phi) (*induction, bool) {
